@@ -339,7 +339,9 @@ func streamRead(r *bytes.Reader, k string) (u uint64, b []byte, err error) {
 	panic("kind")
 }
 
-func isBytesKind(k string) bool { return k == "varbytes" || k == "string" || k == "addr" || k == "hash" }
+func isBytesKind(k string) bool {
+	return k == "varbytes" || k == "string" || k == "addr" || k == "hash"
+}
 
 func runC01(ctx *ev.Ctx, c c01Case) {
 	ctx.Label("mode:" + c.Mode)
@@ -534,17 +536,115 @@ func runC01Random(ctx *ev.Ctx, c c01Case) {
 		if eof != (err != nil) {
 			ctx.Failf("decoders disagree on arbitrary bytes at read %d (%s): zero-copy eof=%v, streaming err=%v; input %x", i, k, eof, err, []byte(c.Raw))
 		}
+		// third voice: a reference reader written from the format description
+		ru, rb, rnext, rok := refRead(c.Raw, pos, k)
+		if rok == eof {
+			ctx.Failf("zero-copy read %d (%s) at %d: eof=%v but the reference reader says complete=%v; input %x", i, k, pos, eof, rok, clip(c.Raw))
+		}
 		if eof {
 			return
 		}
 		if u1 != u2 || !bytes.Equal(b1, b2) {
 			ctx.Failf("decoders disagree on value at read %d (%s): %d/%x vs %d/%x", i, k, u1, b1, u2, b2)
 		}
+		if u1 != ru || !bytes.Equal(b1, rb) || src.Pos() != uint64(rnext) {
+			ctx.Failf("zero-copy read %d (%s) at %d gave %d/%x and moved to %d; reference reader: %d/%x, next %d; input %x",
+				i, k, pos, u1, clip(b1), src.Pos(), ru, clip(rb), rnext, clip(c.Raw))
+		}
 		// an accepted read returned bytes that really are in the input at that position
 		if consumed := len(c.Raw) - rd.Len(); uint64(consumed) != src.Pos() {
 			ctx.Failf("decoders consumed different amounts at read %d (%s): %d vs %d", i, k, src.Pos(), consumed)
 		}
 	}
+}
+
+// refRead is the reference reader: little-endian fixed-width integers, one-byte booleans, the
+// 1/3/5/9-byte variable-length integer (0xFD/0xFE/0xFF prefixes; shorter-than-necessary forms are
+// not required), length-prefixed byte strings, 20-byte addresses, 32-byte hashes. ok=false when
+// the item does not fit into what is left.
+func refRead(data []byte, pos int, k string) (u uint64, b []byte, next int, ok bool) {
+	le := func(n int) (uint64, bool) {
+		if pos+n > len(data) {
+			return 0, false
+		}
+		var v uint64
+		for i := n - 1; i >= 0; i-- {
+			v = v<<8 | uint64(data[pos+i])
+		}
+		pos += n
+		return v, true
+	}
+	take := func(n uint64) ([]byte, bool) {
+		if n > uint64(len(data)-pos) {
+			return nil, false
+		}
+		out := data[pos : pos+int(n)]
+		pos += int(n)
+		return out, true
+	}
+	varu := func() (uint64, bool) {
+		p, ok := le(1)
+		if !ok {
+			return 0, false
+		}
+		switch p {
+		case 0xFD:
+			return le(2)
+		case 0xFE:
+			return le(4)
+		case 0xFF:
+			return le(8)
+		}
+		return p, true
+	}
+	switch k {
+	case "u8", "bool":
+		u, ok = le(1)
+	case "u16", "i16":
+		u, ok = le(2)
+	case "u32", "i32":
+		u, ok = le(4)
+	case "u64", "i64":
+		u, ok = le(8)
+	case "varuint":
+		u, ok = varu()
+	case "varbytes", "string":
+		var n uint64
+		if n, ok = varu(); ok {
+			b, ok = take(n)
+		}
+	case "addr":
+		b, ok = take(20)
+	case "hash":
+		b, ok = take(32)
+	default:
+		panic("kind")
+	}
+	return u, b, pos, ok
+}
+
+// FuzzC01 feeds coverage-guided inputs to the arbitrary-bytes mode of C01: byte 0 = number of
+// reads, the next bytes select the kinds, the rest is the stream both decoders read.
+func FuzzC01(f *testing.F) {
+	f.Add([]byte{3, 8, 9, 10, 0xFD, 0x00, 0x01, 0xFE, 1, 2, 3, 4})
+	f.Add([]byte{2, 9, 9, 0xFF, 0xFF, 0xFF, 0xFF, 0xFF, 0xFF, 0xFF, 0xFF, 0xFF})
+	f.Add([]byte{1, 10, 0xFE, 0xFF, 0xFF, 0xFF, 0x7F, 'a'})
+	f.Add([]byte{4, 11, 12, 7, 3})
+	ev.Fuzz(f, "C01", "TestC01", func(d []byte) (c01Case, bool) {
+		if len(d) < 2 {
+			return c01Case{}, false
+		}
+		n := 1 + int(d[0])%12
+		if len(d) < 1+n {
+			return c01Case{}, false
+		}
+		c := c01Case{Mode: "random"}
+		for _, x := range d[1 : 1+n] {
+			c.Kinds = append(c.Kinds, c01Kinds[int(x)%len(c01Kinds)])
+		}
+		c.Raw = append([]byte(nil), d[1+n:]...)
+		return c, true
+	}, runC01)
 }
 
 func TestC01(t *testing.T) {
